@@ -310,8 +310,11 @@ class GraphNode(HyperNode):
         if not reverse_map:
             return outputs
 
-        # Build forward map (original -> renamed) by inverting reverse map
-        forward_map = {v: k for k, v in reverse_map.items()}
+        # Build forward map (original -> renamed) by inverting reverse map.
+        # The reverse map also keeps names that were renamed away again, so
+        # only entries for the current outputs may be inverted.
+        current = set(self.outputs)
+        forward_map = {v: k for k, v in reverse_map.items() if k in current}
         return {forward_map.get(key, key): value for key, value in outputs.items()}
 
     def has_default_for(self, param: str) -> bool:
